@@ -152,7 +152,7 @@ Fixpoint factors_span (X : tensor F) (fs : list (tensor F)) (k : nat) : Prop :=
   match fs with
   | [] => True
   | U :: fs' =>
-    (exists r c, shape U = [nth k (shape X) 0; r] /\ orthonormal_cols Op U (nth k (shape X) 0) r /\
+    (exists r c, shape U = [nth k (shape X) 0; r] /\ semi_orthonormal_cols Op U (nth k (shape X) 0) r /\
                  mode_span Op X U k r c) /\ factors_span X fs' (S k)
   end.
 
@@ -194,7 +194,7 @@ Proof.
   induction fs as [|U fs IH]; intros k X WX Hlen H.
   - exists X. split; reflexivity.
   - cbn [factors_span length] in *. destruct H as [(r & c & HU & Horth & Hspan) Hrest].
-    destruct (mode_projector_exact Op Rth X U k r c WX ltac:(lia) HU Horth Hspan) as (Y & HY & HsY & _ & HYX).
+    destruct (mode_projector_exact_semi Op Rth X U k r c WX ltac:(lia) HU Horth Hspan) as (Y & HY & HsY & HYX).
     pose proof (mode_dot_inv _ _ _ _ _ HY) as [HokY EY].
     assert (WY : wf Y) by (rewrite EY; apply wf_md).
     assert (HrestY : factors_span Y fs (S k)).
